@@ -274,6 +274,7 @@ DIMLESS = ["vw", "vwLTE", "vJ", "alphaN", "alpha", "csqHigh", "csqLow", "vMin", 
            "muMinLowT", "csqLowExt"]
 DIMFUL = {"width": -1, "Tplus": 1, "Tminus": 1, "pHigh": 4, "pLow": 4, "dpHigh": 3,
           "ddpLow": 2, "eHigh": 4, "wLow": 4, "TMinLowT": 1, "TMinHighT": 1, "pLowExt": 4,
+          "TMaxHighT": 1, "TMaxLowT": 1,
           # the finite-difference / tracer scales actually in use by the potential
           "dTscale": 1, "phiscale": 1}
 
@@ -296,6 +297,10 @@ def tolerance_for(q, tols):
         return 1e-12             # inputs: must arrive unchanged
     if q in ("TMinLowT", "TMinHighT"):
         return 1e-2              # end of the traced range: set by the tracer's step
+    if q in ("TMaxLowT", "TMaxHighT"):
+        # upper ends come from the template-model estimate times the configured safety
+        # factor (configThermodynamics.tmax = 1.2): half of that 20% margin
+        return 0.1
     if q in ("muMinLowT", "csqLowExt", "pLowExt"):
         return 1e-3              # extrapolation: second derivative at the range end
     return eos
@@ -355,16 +360,33 @@ def compare_runs(ctx, ref, run, tols, tolname):
     # the traced ranges of the two runs differ (the visible mechanism).  Outputs of the wall
     # solution and the inputs (variation scales) are never attributed.
     EOS_Q = {"alphaN", "alpha", "csqHigh", "csqLow", "vJ", "vMin", "vwLTE", "muMinLowT", "pHigh",
-             "pLow", "dpHigh", "ddpLow", "eHigh", "wLow", "TMinLowT", "TMinHighT"}
+             "pLow", "dpHigh", "ddpLow", "eHigh", "wLow", "TMinLowT", "TMinHighT", "TMaxLowT",
+             "TMaxHighT"}
     ranges_differ = any(
         abs(ref[e] / ref["Tn"] - run[e] / run["Tn"]) > 0.02 * abs(ref[e] / ref["Tn"])
         for e in ("TMinHighT", "TMaxHighT", "TMinLowT", "TMaxLowT"))
     if probe >= PROBE_TOL:
-        ctx.log("  note: un-interpolated EOS at Tn (findLocalMinimum + finite differences) "
-                "deviates by %.2g between units x%g and x%g (alpha %.6g vs %.6g, cs2_low %.6g "
-                "vs %.6g)%s" % (probe, ref["unit"], run["unit"], ref["alpha0"], run["alpha0"],
-                                ref["csqLow0"], run["csqLow0"],
-                                "; traced ranges differ" if ranges_differ else ""))
+        what = ("%s [%s tolerances]: the EOS at Tn computed without tracing/interpolation "
+                "(EffectivePotential.findLocalMinimum + finite differences in T; what "
+                "WallGoManager.initTemperatureRange feeds the template model) is not unit "
+                "covariant: alpha %.7g vs %.7g, cs2_high %.7g vs %.7g, cs2_low %.7g vs %.7g "
+                "between units x%g and x%g (relative deviation %.2g > %.0e)%s" % (
+                    name, tolname, ref["alpha0"], run["alpha0"], ref["csqHigh0"],
+                    run["csqHigh0"], ref["csqLow0"], run["csqLow0"], ref["unit"], run["unit"],
+                    probe, PROBE_TOL, "; traced ranges differ" if ranges_differ else ""))
+        if lam > 1:
+            # field values large against scipy's ABSOLUTE finite-difference step (1.49e-8):
+            # checked property (fixed in /repo by scaling the step with the field scale)
+            ctx.fail_input(what, dict(kind="metamorphic", model=name, tols=run["tols"], **hist,
+                                      units=[ref["unit"], run["unit"]],
+                                      quantity="uninterpolated-EOS", probe=probe),
+                           key="site:findLocalMinimum-absolute-step")
+        else:
+            # small units: the minimiser's ABSOLUTE gradient tolerance (gtol = tol or 1e-5) is
+            # met at once.  Only the choice of the traced range depends on it (checked below
+            # through the range ends); logged, counted, not a failure by itself.
+            ctx.count("probe_small_units_absolute_gtol", bucket="x%g" % lam)
+            ctx.log("  note (site:findLocalMinimum-absolute-gtol): " + what)
     attributed = []
     for q in DIMLESS + list(DIMFUL):
         if q not in ref or q not in run:
@@ -378,7 +400,7 @@ def compare_runs(ctx, ref, run, tols, tolname):
         ctx.count("metamorphic_compare", bucket=q)
         if not dev <= tol:
             bad.append(q)
-            if probe >= PROBE_TOL and ranges_differ and q in EOS_Q:
+            if lam > 1 and probe >= PROBE_TOL and ranges_differ and q in EOS_Q:
                 attributed.append((q, a, b, d, dev, tol))
                 continue
             ctx.fail_input(
